@@ -44,6 +44,9 @@ type ChanVal struct {
 }
 type Tuple struct{ V []Value }
 
+// Native wraps a Go object the engine keeps as is (compiled regular expressions).
+type Native struct{ V interface{} }
+
 // opaque native object (e.g. error created by errors.New)
 type ErrObj struct {
 	Msg  string
@@ -305,6 +308,9 @@ func eqValues(a, b Value) *Term {
 	case *ErrObj:
 		y, ok := b.(*ErrObj)
 		return Bool(ok && x.ID == y.ID)
+	case *Native:
+		y, ok := b.(*Native)
+		return Bool(ok && x == y)
 	case nil:
 		return Bool(b == nil)
 	}
